@@ -29,6 +29,9 @@ Optional functions (implement those in scope for the environment, see SCOPE belo
   horizon(P) -> int                            structural horizon for no-limit environments (C11)
   time_limit(P) -> int                         effective time limit of the configuration (C11)
   check_obs(P, S, O) -> problems               observation == documented function of the state (C12)
+  dense_sparse(P, trace, ret, ret_twin, twin_ended_at) -> problems   replaces the generic "same return under the other
+                                               reward function" clause where the two functions are documented as
+                                               different objectives (C08)
   policies(P) -> {name: fn(ctx) -> action}     extra workload policies (complete / collide / frontier ...)
 """
 from __future__ import annotations
